@@ -168,6 +168,14 @@ pub struct ModTable {
     pub slice_sum: extern "C" fn(CSliceRef<u64>) -> u64,
     pub vec_drop: extern "C" fn(CVec<u64>),
     pub stats: extern "C" fn(&mut Stats),
+    // TYPED handles (not yet erased): their stored functions were instantiated for the concrete type in the creating module
+    pub make_tarc: extern "C" fn() -> CArc<Token>,
+    pub tarc_clone: extern "C" fn(&CArc<Token>) -> CArc<Token>,
+    pub tarc_opaque: extern "C" fn(CArc<Token>) -> Ctx,
+    pub tarc_drop: extern "C" fn(CArc<Token>),
+    pub make_box: extern "C" fn(u64) -> CBox<'static, u64>,
+    pub box_get: extern "C" fn(&CBox<'static, u64>) -> u64,
+    pub box_drop: extern "C" fn(CBox<'static, u64>),
 }
 
 extern "C" fn make_ctx() -> Ctx { CArc::<Token>::from(Arc::new(Token::new())).into_opaque() }
@@ -228,9 +236,18 @@ extern "C" fn stats(s: &mut Stats) {
                  foreign_free: FOREIGN_FREE.load(SeqCst), unknown_free: UNKNOWN_FREE.load(SeqCst), size_mismatch: SIZE_MISMATCH.load(SeqCst), live_bytes: LIVE_BYTES.load(SeqCst) };
 }
 
+extern "C" fn make_tarc() -> CArc<Token> { CArc::from(Arc::new(Token::new())) }
+extern "C" fn tarc_clone(c: &CArc<Token>) -> CArc<Token> { c.clone() }
+extern "C" fn tarc_opaque(c: CArc<Token>) -> Ctx { c.into_opaque() }
+extern "C" fn tarc_drop(c: CArc<Token>) { drop(c) }
+extern "C" fn make_box(v: u64) -> CBox<'static, u64> { CBox::from(v) }
+extern "C" fn box_get(b: &CBox<'static, u64>) -> u64 { **b }
+extern "C" fn box_drop(b: CBox<'static, u64>) { drop(b) }
+
 pub static TABLE: ModTable = ModTable {
     make_ctx, ctx_clone, ctx_drop, make_obj, obj_get, obj_add, obj_label_len, obj_into_total, obj_drop, make_grp, grp_get, grp_clone, grp_put, grp_sum,
     grp_visit_local_cb, grp_fill_local_iter, grp_has_store, grp_into_total, grp_drop, make_vec, vec_push, vec_insert, vec_pop, vec_remove, vec_reserve, vec_clone, vec_sum, slice_sum, vec_drop, stats,
+    make_tarc, tarc_clone, tarc_opaque, tarc_drop, make_box, box_get, box_drop,
 };
 
 #[no_mangle]
